@@ -1,4 +1,4 @@
-\* every subset of the pinned tree's deviations: a failing run is explained by the signature (KF_...) of a
+\* the four trees reachable with fixes/C19-*.diff (thorough: every subset of the deviations): a failing run is explained by the signature (KF_...) of a
 \* deviation that is switched on, or by the findBound gap
 CONSTANTS
   MaxSeq = 6
@@ -8,7 +8,7 @@ CONSTANTS
   LongSizes = {40}
   LongRuns <- RunsQuick
   FullQueries = 13
-  DevSets <- AllDevSets
+  DevSets <- FixPatches
 SPECIFICATION MCSpec
 INVARIANTS TypeOK KFCoverInv DiffersInv RunAgrees RequestBoundInv
 CHECK_DEADLOCK FALSE
